@@ -6,6 +6,7 @@ use crate::mon::c05;
 use crate::oracle::rules::*;
 use crate::oracle::solver::{PKey, Solver};
 use crate::oracle::tb::{Tablebases, Val};
+use crate::oracle::tb4::Tablebases4;
 use crate::report::{mix, Ctx, Report};
 use crate::scenario::{Scenario, Step, StepResult};
 use crate::srch;
@@ -142,6 +143,9 @@ pub fn judge_tb(p: &Pos, sc: &Scenario, res: &StepResult, tb: &Tablebases, must_
     if val.is_win() {
         rep.distinct(mix(p.key_hash(), step.depth.unwrap_or(0) as u64));
     }
+    if res.threads >= 2 {
+        rep.aux_distinct("table_event_signatures", res.signature);
+    }
     true
 }
 
@@ -226,17 +230,181 @@ pub fn judge_solver(p: &Pos, n: usize, sc: &Scenario, res: &StepResult, rep: &mu
     true
 }
 
+/// mate distance (plies) encoded in a winning terminal evaluation, when it is below 10
+fn claimed_plies(e: Evaluation) -> Option<usize> {
+    let v: i32 = e.into();
+    let base: i32 = Evaluation::POS_INF.into();
+    let bonus = (v - base) / 100;
+    if v >= base && bonus >= 1 && bonus <= 10 && (v - base) % 100 == 0 {
+        Some((10 - bonus) as usize)
+    } else {
+        None
+    }
+}
+
+/// random legal position with the given men besides the kings, the weaker king often near an edge
+fn random_material(rng: &mut gen::R, white: &[i8], black: &[i8]) -> Pos {
+    loop {
+        let mut b = [0i8; 64];
+        let edge = |rng: &mut gen::R| -> usize {
+            let e = rng.gen_range(0..8);
+            match rng.gen_range(0..4) {
+                0 => e,
+                1 => 56 + e,
+                2 => e * 8,
+                _ => e * 8 + 7,
+            }
+        };
+        let bk = if rng.gen_bool(0.5) { edge(rng) } else { rng.gen_range(0..64) };
+        b[bk] = -6;
+        let mut put = |v: i8, near: Option<usize>, rng: &mut gen::R, b: &mut [i8; 64]| {
+            for _ in 0..50 {
+                let s = match near {
+                    Some(n) if rng.gen_bool(0.5) => {
+                        let f = (n % 8) as i32 + rng.gen_range(-2..=2);
+                        let r = (n / 8) as i32 + rng.gen_range(-2..=2);
+                        match at(f, r) {
+                            Some(s) => s as usize,
+                            None => continue,
+                        }
+                    }
+                    _ => rng.gen_range(0..64usize),
+                };
+                if b[s] == 0 && !(v.abs() == 1 && (s < 8 || s >= 56)) {
+                    b[s] = v;
+                    return;
+                }
+            }
+        };
+        put(6, Some(bk), rng, &mut b);
+        for v in white {
+            put(*v, Some(bk), rng, &mut b);
+        }
+        for v in black {
+            put(-*v, None, rng, &mut b);
+        }
+        let p = Pos { b, wtm: rng.gen_bool(0.6), castle: 0, ep: None, half: 0, full: 1 };
+        if p.men() == 2 + white.len() + black.len() && p.is_legal_position() && !p.legal_moves().is_empty() {
+            return if rng.gen_bool(0.5) { p.mirror() } else { p };
+        }
+    }
+}
+
+/// Soundness beyond the tablebases: the claimed distance is encoded in the score, so an exhaustive
+/// solver can refute a claim ("mate within k plies" must exist), and a first move is refuted when
+/// the defender provably does not lose after it (stalemate, capture into a dead draw, or a mate
+/// for the defender).
+pub fn judge_claims_by_solver(p: &Pos, sc: &Scenario, res: &StepResult, tb3: &Tablebases, tb4: &Tablebases4, rep: &mut Report) -> bool {
+    let step = &sc.steps[0];
+    let replay = json!({"scenario": sc.to_json(), "four_man": true});
+    let sig = |k: &str| format!("{}|{}|d{}|w{}", k, step.fen, step.depth.unwrap_or(0), step.workers.unwrap_or(0));
+    rep.eval(1);
+    rep.count("searches", 1);
+    rep.count("four_man_soundness_searches", 1);
+    if res.threads >= 2 {
+        rep.aux_distinct("table_event_signatures", res.signature);
+    }
+    if res.out.panic.is_some() {
+        rep.count("panic_left_to_C04", 1);
+        return true;
+    }
+    let empty: HashSet<PKey> = HashSet::new();
+    for (line, e) in res.out.lines.iter() {
+        if *e < Evaluation::POS_INF {
+            continue;
+        }
+        rep.count("mate_claims_beyond_tablebases", 1);
+        let om = to_omove(&line[0]);
+        if !p.legal_moves().contains(&om) {
+            rep.count("illegal_first_move_left_to_C03", 1);
+            return true;
+        }
+        let c = p.make(&om);
+        // (a) the claim itself: exact where a 4-man table exists
+        let exact = tb4.probe(p);
+        if let Some(v) = exact {
+            rep.count("claims_judged_by_four_man_tablebase", 1);
+            if !v.is_win() {
+                rep.violation("false-mate-claim", &sig("false-mate-claim"), &format!("search reports {:?} for {} with line {}, but the exact value of the position is {:?}", e, step.fen, srch::lan_line(line), v), replay);
+                return false;
+            }
+            let after = tb4.probe(&c).or_else(|| tb3.probe(&c));
+            if let Some(a) = after {
+                if !a.is_loss() {
+                    rep.violation("mate-claim-move-loses-win", &sig("mate-claim-move-loses-win"), &format!("mate claimed ({:?}) for {} but after the reported first move {} the exact value for the defender is {:?}", e, step.fen, Pos::lan(&om), a), replay);
+                    return false;
+                }
+            }
+            continue;
+        }
+        // no table: the exhaustive solver can confirm a claim but, since table entries keep the score of the
+        // ply at which they were computed and can chain, a missing confirmation within a bound proves nothing
+        let d = step.depth.unwrap_or(1);
+        let bound = 2 * d + 3;
+        let bound = if bound % 2 == 0 { bound + 1 } else { bound };
+        let mut sv = Solver::new(&empty);
+        sv.node_limit = 6_000_000;
+        let ok = sv.wins(p, bound);
+        rep.max("solver_nodes_for_one_claim", sv.nodes);
+        if ok && !sv.aborted {
+            rep.count("claims_confirmed_by_solver", 1);
+        } else {
+            rep.count("claims_unconfirmed_by_solver", 1);
+        }
+        let _ = claimed_plies(*e);
+        // (b) the first move: refuted only by a proof that the defender does not lose
+        let replies = c.legal_moves();
+        let dead = |q: &Pos| q.men() == 2 || (q.men() == 3 && (q.count(2) + q.count(-2) + q.count(3) + q.count(-3)) == 1);
+        let mut refuted: Option<String> = None;
+        if replies.is_empty() && !c.in_check(c.wtm) {
+            refuted = Some("stalemates the defender".into());
+        } else if replies.iter().any(|m| dead(&c.make(m))) {
+            refuted = Some("lets the defender capture into a dead draw".into());
+        } else {
+            let mut sv = Solver::new(&empty);
+            sv.node_limit = 1_000_000;
+            if sv.wins(&c, 5) && !sv.aborted {
+                refuted = Some("lets the defender force mate".into());
+            }
+        }
+        if let Some(why) = refuted {
+            rep.violation("mate-claim-move-loses-win", &sig("mate-claim-move-loses-win"), &format!("mate claimed ({:?}) for {} but the reported first move {} {}", e, step.fen, Pos::lan(&om), why), replay);
+            return false;
+        }
+    }
+    // completeness where the exact distance is known
+    if let Some(Val::Win(n)) = tb4.probe(p) {
+        let d = step.depth.unwrap_or(0);
+        if (n as usize) <= 5 && d >= n as usize {
+            rep.count("four_man_completeness_cases", 1);
+            if let Some((line, e)) = res.out.lines.last() {
+                if *e < Evaluation::POS_INF {
+                    rep.violation("mate-missed", &sig("mate-missed"), &format!("{} is a forced mate in {} plies (4-man tablebase) but a depth-{} search reports {:?} (line {})", step.fen, n, d, e, srch::lan_line(line)), replay);
+                    return false;
+                }
+            }
+        }
+    }
+    rep.distinct(mix(p.key_hash(), 4000 + step.depth.unwrap_or(0) as u64));
+    true
+}
+
 pub fn run(ctx: &Ctx, rep: &mut Report) {
     let ev = Evaluator::default();
     let mut rng = gen::shard_rng(ctx.seed, ctx.shard, 6);
     let Some(tb) = build_tb(rep) else { return };
+    // optional exact 4-man tables (built by ./check --setup into /verif/cache; absent = solver fallback)
+    let tb4 = Tablebases4::load_cached();
+    rep.count("four_man_tables_loaded", tb4.tables.len() as u64);
     if let Some(path) = &ctx.replay {
         let v: serde_json::Value = serde_json::from_slice(&std::fs::read(path).expect("replay file")).expect("replay json");
         let sc = Scenario::from_json(&v["scenario"]);
         let p = Pos::from_fen(&sc.steps[0].fen).unwrap();
         for _ in 0..10 {
             let Some(res) = run_one(&sc, &ev) else { break };
-            let ok = if let Some(n) = v.get("solver_mate_in").and_then(|n| n.as_u64()) {
+            let ok = if v.get("four_man").is_some() {
+                judge_claims_by_solver(&p, &sc, &res, &tb, &tb4, rep)
+            } else if let Some(n) = v.get("solver_mate_in").and_then(|n| n.as_u64()) {
                 judge_solver(&p, n as usize, &sc, &res, rep)
             } else {
                 judge_tb(&p, &sc, &res, &tb, v["must_find"].as_bool().unwrap_or(false), rep)
@@ -286,6 +454,23 @@ pub fn run(ctx: &Ctx, rep: &mut Report) {
             Some(Val::Loss(_)) => rep.count("soundness_roots_lost", 1),
             _ => rep.count("soundness_roots_won", 1),
         }
+        n -= 1;
+    }
+    // soundness beyond the tablebases: 4- and 5-man endings, all worker counts
+    let classes: [(&[i8], &[i8]); 9] = [(&[4], &[4]), (&[5], &[5]), (&[5], &[4]), (&[4], &[5]), (&[4], &[3]), (&[4], &[2]), (&[5], &[3]), (&[4, 1], &[4]), (&[5], &[1])];
+    let many = [1usize, 2, 3, 4, 6, 8, 12, 32];
+    let mut n = ctx.n(16_000, 800_000);
+    while n > 0 && ctx.time_left() {
+        let (w, b) = classes[rng.gen_range(0..classes.len())];
+        let p = random_material(&mut rng, w, b);
+        if gen::q_cost(&p, 300_000) >= 300_000 {
+            continue;
+        }
+        let d = rng.gen_range(2..=4);
+        let wk = *many.choose(&mut rng).unwrap();
+        let sc = fresh(&mut rng, &p.fen(), d, wk);
+        let Some(res) = run_one(&sc, &ev) else { continue };
+        judge_claims_by_solver(&p, &sc, &res, &tb, &tb4, rep);
         n -= 1;
     }
     // beyond the tablebases: solver-proved mates in richer material
